@@ -11,6 +11,9 @@
      PERMROWS n D ql X | ROT n D R X | TRANS n D t X | SCALE n D c X  -> table n x D
      RPT n ql M M' | RPR n d ql Y Y' | REQ n m M M' | RSC n m c M M' | RCJ D R C C'
      RAV D R t v v' | RSV D c v v' | ORT D R | RSD n d Y Y' | PLB n ql   -> "B 0" | "B 1"
+     LAPM n <nbrs> H   (nbrs = "n (len e_1 .. e_len) x n", H = n x n heat values)
+                                                     -> "T n n .. | T 1 n .." (L and D) | "OOB"
+     KLLEM n k <nbrs> W shift  (W = n x k local weights) -> table n x n
    anything unparsable -> "?" *)
 open C12_model
 
@@ -98,6 +101,19 @@ let print_table t =
   List.iter (fun r -> List.iter (fun x -> Buffer.add_char buf ' '; Buffer.add_string buf (string_of_qc x)) r) t;
   print_endline (Buffer.contents buf)
 
+let take_nbrs toks =
+  let n = take_dim toks in
+  List.init n (fun _ -> let len = take_dim toks in
+    List.init len (fun _ -> let v = take_int toks in if v < 0 then raise Bad else nat_of_int v))
+
+let table_string t =
+  let rows = List.length t in
+  let cols = match t with [] -> 0 | r :: _ -> List.length r in
+  let buf = Buffer.create 256 in
+  Buffer.add_string buf (Printf.sprintf "T %d %d" rows cols);
+  List.iter (fun r -> List.iter (fun x -> Buffer.add_char buf ' '; Buffer.add_string buf (string_of_qc x)) r) t;
+  Buffer.contents buf
+
 let print_bool b = print_endline (if b then "B 1" else "B 0")
 
 let () =
@@ -158,6 +174,13 @@ let () =
            | "ORT" -> let d = take_dim toks in let r = take_table toks in print_bool (orth_b (nat_of_int d) r)
            | "RSD" -> let n = take_dim toks in let d = take_dim toks in let y = take_table toks in
              let y' = take_table toks in print_bool (rel_same_dist_b (nat_of_int n) (nat_of_int d) y y')
+           | "LAPM" -> let n = take_dim toks in let nbl = take_nbrs toks in let h = take_table toks in
+             (match laplacian_q (nat_of_int n) nbl h with
+              | Ok (l, d) -> print_endline (table_string l ^ " | " ^ table_string [d])
+              | OOB -> print_endline "OOB")
+           | "KLLEM" -> let n = take_dim toks in let k = take_dim toks in let nbl = take_nbrs toks in
+             let w = take_table toks in let shift = take_qc toks in
+             print_table (klle_M_q (nat_of_int n) (nat_of_int k) nbl w shift)
            | "PLB" -> let n = take_dim toks in let ql = take_perm toks in print_bool (perm_list_b (nat_of_int n) ql)
            | _ -> print_endline "?")
       with Bad | Not_found | Invalid_argument _ -> print_endline "?")
